@@ -88,7 +88,8 @@ class DiffSpec:
         a = copy.deepcopy(case)
         a.pop("profile", None)
         a.pop("shipped", None)
-        a["scenario"] = ref_result["scenario"]
+        a.pop("schedule_dir", None) if not case.get("schedule_dir") else None
+        a["scenario"] = ref_result["scenario"] if not case.get("schedule_dir") else None
         a["inventory"] = ref_result.get("inventory")
         a["origin"] = ref_result.get("origin")
         a["ops"] = self.variant_ops(ref_result["ops"], variant)
@@ -204,10 +205,15 @@ class DiffRunner:
         out = []
         viol_by_case: Dict[int, Dict] = {}
         for (ci, v), res in zip(index, vars_):
-            if ci in viol_by_case:
-                continue
             viol = self.classify(cases[ci], refs[ci], v, res)
-            if viol:
+            if not viol:
+                continue
+            k = next((k for k in self.known if sig_matches(k, viol)), None)
+            if k is not None:
+                # a listed finding in one variant must not hide an unlisted violation in another variant of the case
+                self.known_hits.setdefault(k["id"], {"finding": k, "count": 0})["count"] += 1
+                viol_by_case.setdefault(ci, viol)
+            elif ci not in viol_by_case or any(sig_matches(k2, viol_by_case[ci]) for k2 in self.known):
                 viol_by_case[ci] = viol
         for ci, (c, ref) in enumerate(zip(cases, refs)):
             if ref is not None:
@@ -271,10 +277,11 @@ class DiffRunner:
                 continue
             with open(os.path.join(VERIF_ROOT, k["replay"])) as f:
                 rec = json.load(f)
+            before = self.known_hits.get(k["id"], {}).get("count", 0)
             res = self.evaluate_cases([rec["case"]])
             v = res[0][2] if res else None
-            if v and sig_matches(k, v):
-                self.known_hits.setdefault(k["id"], {"finding": k, "count": 0})["count"] += 1
+            if self.known_hits.get(k["id"], {}).get("count", 0) > before:
+                pass
             else:
                 print(f"NOTE: known finding {k['id']} did not reproduce from {k['replay']} (got {v['sig'] if v else 'no violation'})")
         batch = 24
@@ -288,9 +295,7 @@ class DiffRunner:
                 if not v:
                     continue
                 k = next((k for k in self.known if sig_matches(k, v)), None)
-                if k is not None:
-                    self.known_hits.setdefault(k["id"], {"finding": k, "count": 0})["count"] += 1
-                else:
+                if k is None:
                     unknown.setdefault(v["sig"], (c, ref, v))
         exit_code = 0
         lines = []
